@@ -17,6 +17,7 @@ func NewPropContainer() map[string]object.PanObject {
 		"Iter_next":    object.NewPanBuiltInFunc(iterNext),
 		"Map_at":       object.NewPanBuiltInFunc(findElemInMap),
 		"Obj_callProp": object.NewPanBuiltInFunc(builtInCallProp),
+		"Obj_sendProp": object.NewPanBuiltInFunc(builtInSendProp),
 		"Str_at":       object.NewPanBuiltInFunc(findElemInStr),
 	}
 }
